@@ -48,6 +48,91 @@ class C13(fw.Prop):
                 (dl, dp, dn), (sl, sp, sn) = HdlcAddress.find_address_in_frame_bytes(frame)
                 return f"ok {dl} {opt(dp)} {dn} {sl} {opt(sp)} {sn}"
             return fw.Case(f"addr find {frame.hex()}", impl, d.get("kind", "model"), d, tags=("find-" + d.get("kind", "model"),))
+        if op == "inframe":
+            # a frame of the given kind built by the library's frame classes: the two addresses are located and decoded
+            # back, also when the frame object was first serialised for another station and then re-addressed, and when
+            # the received bytes are a bytearray (what the connection hands to the decoders)
+            from harness.props.c18 import crc_x25
+
+            def enc_frame(dest, src, ctrl, info):
+                # (the kinds that can carry information - UA, I - always have a header check sequence in this library, C09)
+                hcs = kind in ("ua", "i")
+                n = 2 + len(dest) + len(src) + 1 + (2 if hcs else 0) + len(info) + 2
+                head = (0xA000 | n).to_bytes(2, "big") + dest + src + bytes([ctrl])
+                body = head + (crc_x25(head) if hcs else b"") + info
+                return b"\x7e" + body + crc_x25(body) + b"\x7e"
+            kind, dst, src, odst, osrc = d["kind"], tuple(d["dst"]), tuple(d["src"]), tuple(d["odst"]), tuple(d["osrc"])
+            ctrl = {"snrm": 0x93, "disc": 0x53, "ua": 0x73, "rr": 0x71, "i": 0x54}[kind]
+            info = b"\xe6\xe7\x00\x01" if kind == "i" else b""
+            wire = enc_frame(self.spec_bytes(*dst), self.spec_bytes(*src), ctrl, info)
+
+            def impl():
+                from dlms_cosem.hdlc import frames
+                from dlms_cosem.hdlc.address import HdlcAddress
+
+                def addr(a):
+                    return HdlcAddress(a[1], a[2], "client" if a[0] == "c" else "server")
+                cls = {"snrm": frames.SetNormalResponseModeFrame, "disc": frames.DisconnectFrame, "ua": frames.UnNumberedAcknowledgmentFrame,
+                       "rr": frames.ReceiveReadyFrame, "i": frames.InformationFrame}[kind]
+                kw = {"payload": info} if kind == "i" else {}
+                if kind == "i":
+                    kw.update(send_sequence_number=2, receive_sequence_number=2)
+                if kind == "rr":
+                    kw.update(receive_sequence_number=3)
+                f = cls(addr(odst), addr(osrc), **kw)
+                f.to_bytes()
+                f.destination_address, f.source_address = addr(dst), addr(src)
+                out = bytes(f.to_bytes())
+                note = "" if out == wire else " !frame-bytes-differ:" + out.hex()
+                (dl, dp, dn), (sl, sp, sn) = HdlcAddress.find_address_in_frame_bytes(bytearray(out))
+                if kind not in ("snrm",):
+                    back = cls.from_bytes(bytearray(wire))
+                    got = (back.destination_address.logical_address, back.destination_address.physical_address,
+                           back.source_address.logical_address, back.source_address.physical_address)
+                    if got != (dst[1], dst[2], src[1], src[2]):
+                        note += f" !from_bytes-addresses:{got}"
+                return f"ok {dl} {opt(dp)} {dn} {sl} {opt(sp)} {sn}" + note
+            return fw.Case(f"addr find {wire.hex()}", impl, "prop", d, tags=("inframe-" + kind,))
+        if op == "client":
+            # the addresses as they leave a client built with DlmsClient.with_serial_hdlc_transport (serial port faked):
+            # the SNRM it writes carries the configured server and client addresses
+            cl, sl, sp = d["client"], d["sl"], d["sp"]
+            from harness.props.c18 import crc_x25
+            dest, src = self.spec_bytes("s", sl, sp), self.spec_bytes("c", cl, None)
+            head = (0xA000 | (2 + len(dest) + len(src) + 1 + 2)).to_bytes(2, "big") + dest + src + b"\x93"
+            wire = b"\x7e" + head + crc_x25(head) + b"\x7e"
+
+            def impl():
+                import serial
+                from dlms_cosem.clients.dlms_client import DlmsClient
+                written = []
+
+                class FakePort:
+                    def __init__(self, *a, **k):
+                        pass
+
+                    def write(self, b):
+                        written.append(bytes(b))
+                        return len(b)
+
+                    def read_until(self, *a, **k):
+                        raise fw.MachineryError("stop after the first frame")
+                real = serial.Serial
+                serial.Serial = FakePort
+                try:
+                    c = DlmsClient.with_serial_hdlc_transport(serial_port="x", client_logical_address=cl, server_logical_address=sl,
+                                                             server_physical_address=sp)
+                    try:
+                        c.connect()
+                    except fw.MachineryError:
+                        pass
+                finally:
+                    serial.Serial = real
+                from dlms_cosem.hdlc.address import HdlcAddress
+                out = b"".join(written)
+                (dl, dp, dn), (sl_, sp_, sn) = HdlcAddress.find_address_in_frame_bytes(out)
+                return f"ok {dl} {opt(dp)} {dn} {sl_} {opt(sp_)} {sn}" + ("" if out == wire else " !frame-bytes-differ:" + out.hex())
+            return fw.Case(f"addr find {wire.hex()}", impl, "prop", d, tags=("client-constructor",))
         raise fw.MachineryError(op)
 
     @staticmethod
@@ -87,6 +172,20 @@ class C13(fw.Prop):
                 for x, y in ((ab, bb), (bb, ab)):
                     frame = b"\x7e" + bytes([0xA0 | rng.getrandbits(4), rng.getrandbits(8)]) + x + y + tail
                     yield mk({"op": "find", "frame": frame.hex(), "kind": "prop"})
+        # the same through the frame classes, every kind, re-addressed objects, bytearray input
+        servers = [("s", 1, None), ("s", 1, 17), ("s", 0, 0), ("s", 127, 127), ("s", 200, 5), ("s", 5, 200), ("s", 1, 128), ("s", 128, 1),
+                   ("s", 16383, 16383), ("s", 300, 5000), ("s", 1, 0), ("s", 200, 0)]
+        servers += [("s", rng.randrange(16384), rng.randrange(16384)) for _ in range(200 if deep else 20)]
+        for kind in ("snrm", "disc", "ua", "rr", "i"):
+            to_meter = kind in ("snrm", "disc")
+            for srv in servers:
+                cl = ("c", rng.choice([1, 16, 127]), None)
+                other_srv, other_cl = rng.choice(servers), ("c", rng.choice([0, 2, 100]), None)
+                dst, src = (srv, cl) if to_meter else (cl, srv)
+                odst, osrc = (other_srv, other_cl) if to_meter else (other_cl, other_srv)
+                yield mk({"op": "inframe", "kind": kind, "dst": dst, "src": src, "odst": odst, "osrc": osrc})
+        for cl, sl, sp in ((16, 1, 17), (1, 1, None), (16, 1, 0), (127, 127, 127), (16, 200, 5), (16, 5, 200), (16, 16383, 16383)):
+            yield mk({"op": "client", "client": cl, "sl": sl, "sp": sp})
         for _ in range(20000 if deep else 1500):
             n = rng.randint(0, 14)
             frame = b"\x7e\xa0" + bytes(rng.getrandbits(8) & (0xFE if rng.random() < 0.5 else 0xFF) for _ in range(n))
